@@ -11,7 +11,8 @@ import AutomataVerif.Proofs.Product
 import AutomataVerif.Proofs.PyShape
 
 namespace AV
-namespace DFA
+namespace C04
+open DFA
 
 set_option linter.unusedSectionVars false
 
@@ -133,5 +134,5 @@ theorem crossSucc_keys_sub_syms {A B : DFA σ α} (wfA : A.WF) (wfB : B.WF)
 
 end product
 
-end DFA
+end C04
 end AV
